@@ -29,6 +29,10 @@ type clause struct {
 }
 
 type loopSpec struct {
+	steps    []clause
+	stepFns  []string
+	stepSSA  []*ssa.Function
+	headState *State
 	splitType, splitExpr string
 	splitAlts []string
 	splitFn   string
@@ -70,6 +74,7 @@ type Contract struct {
 	Properties []string
 	Trusted    bool
 	Inline     []string
+	StepProps  []string
 	Opaque     []string
 	StaleLoops []string
 	Uses       []string
@@ -88,6 +93,8 @@ type Contract struct {
 	genName string
 	Text    []string // raw lines, for evidence
 }
+
+var rePrev = regexp.MustCompile(`(^|[^A-Za-z0-9_.])prev\(`)
 
 var reHead = regexp.MustCompile(`^(func\+|func|iface|lemma)\s+(.+)$`)
 
@@ -194,6 +201,10 @@ func parseContractFile(path string, pkgPath string) ([]*Contract, []string, erro
 				invLabel = sub[len("invariant[") : len(sub)-1]
 				sub = "invariant"
 			}
+			if strings.HasPrefix(sub, "step[") && strings.HasSuffix(sub, "]") {
+				invLabel = sub[len("step[") : len(sub)-1]
+				sub = "step"
+			}
 			ls := cur.Loops[n]
 			if ls == nil {
 				ls = &loopSpec{paramsOf: map[string][]string{}}
@@ -226,6 +237,9 @@ func parseContractFile(path string, pkgPath string) ([]*Contract, []string, erro
 				}
 				ls.splitAlts = cs.alts
 				cur.Cases = append(cur.Cases, cs)
+			case "step":
+				// proved at every back edge, not assumed at the head (may use prev(e))
+				ls.steps = append(ls.steps, clause{label: invLabel, expr: parts[2], line: i + 1})
 			case "panicpoint":
 				// the panic predicate is proved once at this loop head (and then known in the body)
 				ls.panicPoint = true
@@ -267,6 +281,10 @@ func parseContractFile(path string, pkgPath string) ([]*Contract, []string, erro
 		case "panics":
 			cur.Panics = rest
 		case "property":
+			cur.Properties = append(cur.Properties, strings.Fields(rest)...)
+		case "stepproperty":
+			// these properties see only the step clauses tagged with them ([label@Cxx])
+			cur.StepProps = append(cur.StepProps, strings.Fields(rest)...)
 			cur.Properties = append(cur.Properties, strings.Fields(rest)...)
 		case "trusted":
 			cur.Trusted = true
@@ -904,6 +922,9 @@ func genContract(g *genCtx, c *Contract, out *strings.Builder) error {
 			}
 			gen := func(kind string, k int, expr string, retType string) (string, error) {
 				var olds []string
+				// prev(e): the value of e (an expression over the parameters) at the head
+				// of the current iteration; handled like old(e) with another evaluation state
+				expr = rePrev.ReplaceAllString(expr, "${1}old(verifPrev+")
 				e := prep(expr, &olds)
 				names, typs, err := freeLocals(pkg, e, sc, pos)
 				if err != nil {
@@ -913,6 +934,11 @@ func genContract(g *genCtx, c *Contract, out *strings.Builder) error {
 				// parameters) at function entry
 				for _, o := range olds {
 					o = strings.TrimSpace(o)
+					isPrev := false
+					if strings.HasPrefix(o, "verifPrev+") {
+						isPrev = true
+						o = strings.TrimSpace(strings.TrimPrefix(o, "verifPrev+"))
+					}
 					var pt types.Type
 					for j := 0; j < sig.Params().Len(); j++ {
 						if sig.Params().At(j).Name() == o {
@@ -922,7 +948,7 @@ func genContract(g *genCtx, c *Contract, out *strings.Builder) error {
 					if sig.Recv() != nil && sig.Recv().Name() == o {
 						pt = sig.Recv().Type()
 					}
-					if pt != nil {
+					if pt != nil && !isPrev {
 						names = append(names, "old:"+o)
 						typs = append(typs, pt)
 						continue
@@ -938,6 +964,7 @@ func genContract(g *genCtx, c *Contract, out *strings.Builder) error {
 					if err != nil {
 						return "", fmt.Errorf("old(%s): %v", o, err)
 					}
+					tv.Type = types.Default(tv.Type)
 					hn := fmt.Sprintf("verif_oldv_%s_%d_%d", c.ID, n, len(ls.oldFns))
 					var hps []string
 					for i := range onames {
@@ -946,7 +973,11 @@ func genContract(g *genCtx, c *Contract, out *strings.Builder) error {
 					fmt.Fprintf(out, "func %s(%s) %s { return %s }\n\n", hn, strings.Join(hps, ", "), g.typeStr(tv.Type), o)
 					ls.oldFns = append(ls.oldFns, hn)
 					ls.paramsOf[hn] = onames
-					names = append(names, "old:#"+hn)
+					if isPrev {
+						names = append(names, "old:@"+hn)
+					} else {
+						names = append(names, "old:#"+hn)
+					}
 					typs = append(typs, tv.Type)
 				}
 				fn := fmt.Sprintf("verif_%s_%s_%d_%d", kind, c.ID, n, k)
@@ -996,6 +1027,13 @@ func genContract(g *genCtx, c *Contract, out *strings.Builder) error {
 					return err
 				}
 				ls.decrFn = fn
+			}
+			for k, sc := range ls.steps {
+				fn, err := gen("step", k, sc.expr, "bool")
+				if err != nil {
+					return err
+				}
+				ls.stepFns = append(ls.stepFns, fn)
 			}
 			if ls.splitExpr != "" {
 				fn, err := gen("split", 0, ls.splitExpr, ls.splitType)
